@@ -14,7 +14,12 @@
 //
 // Line protocol (see lean/Bng/Drv/Acct.lean):
 //
-//	new <maxRetries> <queueCap>             => ok
+//	new <maxRetries> <queueCap> [ms] [ids=<hex>,<hex>,...] => ok
+//	    ids= : the CONCRETE Acct-Session-Id strings (bytes, hex) the tags s1, s2, ... stand for in this sequence
+//	    (default: the tag itself).  Everything the real code is given or returns uses the concrete ids; the
+//	    observations name sessions by tag again (an id no tag stands for is printed ?<hex>), and the persistence
+//	    directory is reported with the real FILE NAMES (hex) and everything else found under the sequence's
+//	    scratch directory (x:<hex of the path relative to it>), so that a file written outside sessions/ shows.
 //	start s1 i3 <ans> [!k]                   => ok|exists acc=<records>
 //	ctr s1 <inhex> <outhex>                  => ok
 //	interim s1 <ans> [!k]                    => ok|skip acc=..
@@ -29,6 +34,8 @@
 //	crash                                    => ok dur=..
 //	restart <ans> [!k]                       => ok acc=.. q=<rN,...|-> | alive
 //	final                                    => sess=.. pend=.. queue=.. dur=..
+//	    dur=<files>|<pfile>, files = sN:<stopPending>:<cause>:<in>:<out>:<hex file name> (sN = tag of the id INSIDE
+//	    the file), sorted; anything else found: x:<hex path>
 //	any op that hit its armed crash point    => crashed@<marker> acc=.. ord=.. dur=..
 //	any op on a dead instance                => dead
 //
@@ -38,6 +45,7 @@ package main
 
 import (
 	"bufio"
+	"encoding/hex"
 	"encoding/json"
 	"fmt"
 	"math/rand"
@@ -79,6 +87,21 @@ type server struct {
 	reply    byte // what the server does with the next request it receives: 'u' answer, 'l' record it and answer with a reply the client refuses, 'L' record it and stay silent
 	stopped  chan struct{}
 	accepted []string
+	tags     map[string]string // concrete Acct-Session-Id -> tag, of the sequence being executed
+}
+
+func (s *server) setTags(m map[string]string) {
+	s.mu.Lock()
+	s.tags = m
+	s.mu.Unlock()
+}
+
+// tagOfID names a concrete session id by its tag (an id no tag stands for: ?<hex>)
+func tagOfID(tags map[string]string, id string) string {
+	if t, ok := tags[id]; ok {
+		return t
+	}
+	return "?" + hex.EncodeToString([]byte(id))
 }
 
 func newServer(w int) *server {
@@ -177,7 +200,7 @@ func (s *server) serve(c *net.UDPConn, stopped chan struct{}) {
 			continue
 		}
 		s.mu.Lock()
-		s.accepted = append(s.accepted, describe(p)+mark)
+		s.accepted = append(s.accepted, describe(p, s.tags)+mark)
 		s.mu.Unlock()
 		if mode != 'L' {
 			c.WriteToUDP(out, from)
@@ -201,8 +224,8 @@ func octets(low uint32, gw uint32, gwPresent bool) string {
 }
 
 // describe renders one accepted Accounting-Request from its WIRE attributes
-func describe(p *radius.Packet) string {
-	sid := rfc2866.AcctSessionID_GetString(p)
+func describe(p *radius.Packet, tags map[string]string) string {
+	sid := tagOfID(tags, rfc2866.AcctSessionID_GetString(p))
 	st := rfc2866.AcctStatusType_Get(p)
 	// identity digest
 	user := rfc2865.UserName_GetString(p)
@@ -270,7 +293,10 @@ type comp struct {
 
 type run struct {
 	c          *worker
-	dir        string
+	dir        string            // scratch directory of the sequence
+	pdir       string            // dir/p: the manager's PersistPath (one level down, so that an escape by `..` shows)
+	idOf       map[string]string // tag -> concrete Acct-Session-Id
+	tagOf      map[string]string // concrete id -> tag
 	am         *bng.AccountingManager
 	alive      bool
 	maxRetries int
@@ -349,11 +375,21 @@ func (r *run) nextAnswer(ans string, idx *int) byte {
 	return a
 }
 
+// id: the concrete session id a tag stands for; tag: the reverse
+func (r *run) id(tag string) string {
+	if v, ok := r.idOf[tag]; ok {
+		return v
+	}
+	return tag
+}
+
+func (r *run) tag(id string) string { return tagOfID(r.tagOf, id) }
+
 func (r *run) stopRecords() map[string]string {
 	m := map[string]string{}
 	for _, p := range r.am.PendingForVerif() {
 		if p.Request.StatusType == bng.AcctStatusStop {
-			m[p.ID] = p.Request.SessionID
+			m[p.ID] = r.tag(p.Request.SessionID)
 		}
 	}
 	return m
@@ -376,7 +412,7 @@ func (r *run) runInjected(inj *injection) {
 		inj.res = "done"
 	case "stop":
 		inj.res = "ok"
-		if err := r.am.StopSession(inj.sid, inj.cause); err != nil {
+		if err := r.am.StopSession(r.id(inj.sid), inj.cause); err != nil {
 			inj.res = "notfound"
 			if strings.Contains(err.Error(), "in progress") {
 				inj.res = "refused"
@@ -545,7 +581,7 @@ func (r *run) newManager() {
 		RetryBaseDelay:  time.Nanosecond, // every pending record is due at the next retry tick
 		RetryMaxDelay:   time.Nanosecond,
 		QueueSize:       r.qcap,
-		PersistPath:     r.dir,
+		PersistPath:     r.pdir,
 		ShutdownTimeout: 30 * time.Second,
 		DrainOnShutdown: true,
 	}, zap.NewNop())
@@ -553,7 +589,7 @@ func (r *run) newManager() {
 		panic(err)
 	}
 	am.SetCounterFetcher(func(sid string) (*bng.SessionCounters, error) {
-		v := r.ctr[sid]
+		v := r.ctr[r.tag(sid)]
 		return &bng.SessionCounters{InputOctets: v[0], OutputOctets: v[1]}, nil
 	})
 	if r.am != nil {
@@ -617,7 +653,7 @@ func kindName(t bng.AcctStatusType) string {
 }
 
 func (r *run) prec(p *bng.PendingAcctRecord) string {
-	return fmt.Sprintf("%s/%s/%s/%d", r.rtok(p.ID), kindName(p.Request.StatusType), p.Request.SessionID, p.RetryCount)
+	return fmt.Sprintf("%s/%s/%s/%d", r.rtok(p.ID), kindName(p.Request.StatusType), r.tag(p.Request.SessionID), p.RetryCount)
 }
 
 func join(xs []string) string {
@@ -639,44 +675,77 @@ func byR(xs []string) {
 	sort.SliceStable(xs, func(i, j int) bool { return num(xs[i]) < num(xs[j]) })
 }
 
-// durable renders the persistence directory
+// durable renders everything found under the sequence's scratch directory: the session files with their real
+// file names, pending.json, and whatever else is there (sub-directories, files outside sessions/: `x:<hex path>`).
+// Temporary files of writeFileAtomic (<file>.tmp next to the file) are left-overs of a torn write and not listed.
 func (r *run) durable() string {
 	var files []string
-	ents, _ := os.ReadDir(filepath.Join(r.dir, "sessions"))
-	for _, e := range ents {
-		if e.IsDir() || filepath.Ext(e.Name()) != ".json" {
-			continue
-		}
-		data, err := os.ReadFile(filepath.Join(r.dir, "sessions", e.Name()))
-		if err != nil {
-			continue
-		}
-		var s bng.AccountingSession
-		if json.Unmarshal(data, &s) != nil {
-			files = append(files, strings.TrimSuffix(e.Name(), ".json")+":corrupt")
-			continue
-		}
-		sp := 0
-		if s.StopPending {
-			sp = 1
-		}
-		files = append(files, fmt.Sprintf("%s:%d:%d:%x:%x", s.SessionID, sp, s.StopCause, s.LastInputOctets, s.LastOutputOctets))
-	}
-	sort.Strings(files)
 	pf := "-"
-	if data, err := os.ReadFile(filepath.Join(r.dir, "pending.json")); err == nil {
-		var recs map[string]*bng.PendingAcctRecord
-		if json.Unmarshal(data, &recs) != nil {
-			pf = "corrupt"
-		} else {
+	filepath.WalkDir(r.dir, func(path string, d os.DirEntry, err error) error {
+		if err != nil || path == r.dir {
+			return nil
+		}
+		rel, _ := filepath.Rel(r.dir, path)
+		extra := func() { files = append(files, "x:"+hex.EncodeToString([]byte(rel))) }
+		if d.IsDir() {
+			if rel != "p" && rel != filepath.Join("p", "sessions") {
+				extra()
+			}
+			return nil
+		}
+		switch {
+		case rel == filepath.Join("p", "pending.json"):
+			data, err := os.ReadFile(path)
+			if err != nil {
+				return nil
+			}
+			var recs map[string]*bng.PendingAcctRecord
+			if json.Unmarshal(data, &recs) != nil {
+				pf = "corrupt"
+				return nil
+			}
 			var xs []string
 			for _, p := range recs {
+				if p == nil || p.Request == nil {
+					pf = "corrupt"
+					return nil
+				}
 				xs = append(xs, r.prec(p))
 			}
 			byR(xs)
 			pf = "[" + strings.Join(xs, ",") + "]"
+		case rel == filepath.Join("p", "pending.json.tmp"):
+		case filepath.Dir(rel) == filepath.Join("p", "sessions"):
+			name := d.Name()
+			if filepath.Ext(name) == ".tmp" {
+				return nil
+			}
+			if filepath.Ext(name) != ".json" || !d.Type().IsRegular() {
+				extra()
+				return nil
+			}
+			data, err := os.ReadFile(path)
+			if err != nil {
+				extra()
+				return nil
+			}
+			var s bng.AccountingSession
+			if json.Unmarshal(data, &s) != nil {
+				files = append(files, "?:corrupt:"+hex.EncodeToString([]byte(name)))
+				return nil
+			}
+			sp := 0
+			if s.StopPending {
+				sp = 1
+			}
+			files = append(files, fmt.Sprintf("%s:%d:%d:%x:%x:%s", r.tag(s.SessionID), sp, s.StopCause, s.LastInputOctets,
+				s.LastOutputOctets, hex.EncodeToString([]byte(name))))
+		default:
+			extra()
 		}
-	}
+		return nil
+	})
+	sort.Strings(files)
 	return join(files) + "|" + pf
 }
 
@@ -686,7 +755,7 @@ func (r *run) volatile() string {
 	}
 	var ss []string
 	for _, s := range r.am.ListSessions() {
-		t := s.SessionID
+		t := r.tag(s.SessionID)
 		if s.StopPending {
 			t += "*"
 		}
@@ -862,6 +931,27 @@ func (r *run) Do(op string) string {
 		r.tornAt = crashAt
 	}
 	if toks[0] == "new" {
+		idOf, tagOf := map[string]string{}, map[string]string{}
+		if n := len(toks); n > 3 && strings.HasPrefix(toks[n-1], "ids=") {
+			ids, ok := parseIDs(toks[n-1][4:])
+			if !ok {
+				return "badop"
+			}
+			for i, id := range ids {
+				idOf["s"+strconv.Itoa(i+1)] = id
+			}
+			toks = toks[:n-1]
+		}
+		for i := 1; i <= 9; i++ { // a tag without a given id stands for itself; two tags never stand for one id
+			t := "s" + strconv.Itoa(i)
+			if _, ok := idOf[t]; !ok {
+				idOf[t] = t
+			}
+			if _, dup := tagOf[idOf[t]]; dup {
+				return "badop"
+			}
+			tagOf[idOf[t]] = t
+		}
 		if (len(toks) != 3 && len(toks) != 4) || r.dir != "" || crashAt != 0 || len(inject) != 0 {
 			return "badop"
 		}
@@ -880,8 +970,11 @@ func (r *run) Do(op string) string {
 		}
 		r.maxRetries, r.qcap = mr, qc
 		r.dir = filepath.Join(r.c.root, fmt.Sprintf("seq%d", r.c.nseq))
+		r.pdir = filepath.Join(r.dir, "p")
+		r.idOf, r.tagOf = idOf, tagOf
+		r.c.srv.setTags(tagOf)
 		os.RemoveAll(r.dir)
-		if err := os.MkdirAll(r.dir, 0755); err != nil {
+		if err := os.MkdirAll(r.pdir, 0755); err != nil {
 			panic(err)
 		}
 		r.c.srv.set('u')
@@ -968,7 +1061,7 @@ func (r *run) Do(op string) string {
 		ans = toks[3]
 		f = func() {
 			u, m, ip, port, class := identOf(k)
-			err := r.am.StartSession(&bng.AccountingSession{SessionID: toks[1], Username: u, MAC: m, FramedIP: ip,
+			err := r.am.StartSession(&bng.AccountingSession{SessionID: r.id(toks[1]), Username: u, MAC: m, FramedIP: ip,
 				NASPort: port, Class: class, CircuitID: "circ" + toks[1], RemoteID: "rem" + toks[1]})
 			res = "ok"
 			if err != nil {
@@ -982,7 +1075,7 @@ func (r *run) Do(op string) string {
 		ans = toks[2]
 		f = func() {
 			res = "skip"
-			if r.am.InterimForVerif(toks[1]) {
+			if r.am.InterimForVerif(r.id(toks[1])) {
 				res = "ok"
 			}
 		}
@@ -997,7 +1090,7 @@ func (r *run) Do(op string) string {
 		ans = toks[3]
 		f = func() {
 			res = "ok"
-			if err := r.am.StopSession(toks[1], uint32(cause)); err != nil {
+			if err := r.am.StopSession(r.id(toks[1]), uint32(cause)); err != nil {
 				res = "notfound"
 			}
 		}
@@ -1042,7 +1135,11 @@ func (r *run) Do(op string) string {
 	case "r":
 		ord = " " + r.ordR()
 	case "s":
-		ord = " ord=" + join(r.order)
+		var xs []string
+		for _, id := range r.order {
+			xs = append(xs, r.tag(id))
+		}
+		ord = " ord=" + join(xs)
 	}
 	if crashed {
 		if ord == "" {
@@ -1062,6 +1159,23 @@ func (r *run) Do(op string) string {
 		out += " dur=" + r.durable()
 	}
 	return out + r.injObs()
+}
+
+// parseIDs: `<hex>,<hex>,...` = the concrete ids of s1, s2, ... (1 to 9 of them, 1 to 64 bytes each)
+func parseIDs(s string) ([]string, bool) {
+	f := strings.Split(s, ",")
+	if len(f) < 1 || len(f) > 9 {
+		return nil, false
+	}
+	var out []string
+	for _, h := range f {
+		b, err := hex.DecodeString(h)
+		if err != nil || len(b) < 1 || len(b) > 64 || strings.ToLower(h) != h {
+			return nil, false
+		}
+		out = append(out, string(b))
+	}
+	return out, true
 }
 
 func validSid(s string) bool {
